@@ -446,6 +446,18 @@ pub fn reference_finds(p: &G, root: usize, hg: &PortGraph, r: usize) -> bool {
     crate::pgref::ref_single(hg, &cs).iter().any(|b| b.get(&PGIndexKey::PathRoot { index: 0 }).map(|n| n.index()) == Some(r))
 }
 
+/// the class of a missed occurrence, and — when it is put down to a known finding — the claim that
+/// goes with it: the pattern is outside the class for which Theorem pg_single_reports_embedding
+/// (Proofs/PGSingleGood.v) proves that the baseline reports every embedding. The model evaluates
+/// the hypothesis of that theorem on the pattern (`pg-good`); an answer 1 contradicts the claim.
+fn indexing_class_checked(p: &G, root: usize, hg: &PortGraph, r: usize, o: &mut Out) -> Option<&'static str> {
+    let c = indexing_class(p, root, hg, r);
+    if c.is_some() {
+        o.case(sexp::l(vec![sexp::a("pg-good"), p.to_s(), sexp::a(root)]).to_string(), "0".into(), true);
+    }
+    c
+}
+
 fn indexing_class(p: &G, root: usize, hg: &PortGraph, r: usize) -> Option<&'static str> {
     if reference_finds(p, root, hg, r) {
         None
@@ -516,7 +528,7 @@ pub fn eval(mode: &str, pats: &[(G, usize)], host: &G, heurs: &[Heur], o: &mut O
             }
             for r in &occ[pi] {
                 if !got.contains(r) {
-                    match indexing_class(p, *root, &hg, *r) {
+                    match indexing_class_checked(p, *root, &hg, *r, o) {
                         Some(c) => o.known_finding(c, replay0.clone()),
                         None => o.violation(format!("pg: SinglePatternMatcher misses the occurrence of pattern {} with root image {}", pi, r), replay0.clone()),
                     }
@@ -585,7 +597,7 @@ pub fn eval(mode: &str, pats: &[(G, usize)], host: &G, heurs: &[Heur], o: &mut O
                             let class = if !single_misses {
                                 // found by the baseline, lost in the automaton: known only for multi-root patterns compiled with others
                                 if n_index_roots(p, *root) >= 2 && pats.len() >= 2 { Some("pg_foreign_bindings_change_root_candidates") } else { None }
-                            } else { indexing_class(p, *root, &hg, *r) };
+                            } else { indexing_class_checked(p, *root, &hg, *r, o) };
                             match class {
                                 Some(c) => o.known_finding(c, replay.clone()),
                                 None => o.violation(format!("pg: ManyMatcher ({}) misses the occurrence of pattern {} with root image {}", heur.to_s(), pi, r), replay.clone()),
@@ -869,7 +881,7 @@ pub fn run_c11(tier: Tier, seed: u64, o: &mut Out) {
                 _ => false,
             };
             if !single_found || !many_found {
-                match indexing_class(&p, root, &hg, r) {
+                match indexing_class_checked(&p, root, &hg, r, o) {
                     Some(c) if !single_found => o.known_finding(c, replay.clone()),
                     _ => o.violation(format!("pg: the occurrence at root image {} is not reported after '{}' (single: {}, automaton: {})", r, what, single_found, many_found), replay.clone()),
                 }
@@ -1002,7 +1014,7 @@ pub fn run_weighted(tier: Tier, seed: u64, o: &mut Out) {
                 let base = run_single(&p, root, &hg).map_or(false, |(b, _)| b.iter().any(|m| root_of(m) == Some(*r)));
                 if base {
                     o.violation(format!("pg (weighted): the occurrence with root image {} is found without weights but lost with the hand-built weighted constraints", r), replay.clone());
-                } else if let Some(c) = indexing_class(&p, root, &hg, *r) {
+                } else if let Some(c) = indexing_class_checked(&p, root, &hg, *r, o) {
                     o.known_finding(c, replay.clone());
                 } else {
                     o.violation(format!("pg (weighted): the occurrence with root image {} is missed", r), replay.clone());
